@@ -46,7 +46,7 @@ fn main() {
             "ext" | "hist" => props::c13::replay(&kind, &v["case"], v["key"].as_str().unwrap_or("")),
             "cost" | "cost-trace" | "cost-ext" | "cost-hist" | "cost-iter" => props::c14::replay(&kind, &v["case"], v["key"].as_str().unwrap_or("")),
             "poisson" | "poisson-pmf" | "poisson-approx" => props::c15::replay(&kind, &v["case"]),
-            "rb-compose" => props::c16::replay(&v["case"]),
+            "rb-compose" | "rb-many" => props::c16::replay(&v["case"]),
             "harden" | "agree" => props::c1719::replay(&kind, &v["case"]),
             "c20-case" => props::c20::replay(&v["case"]),
             _ => machinery_error(&format!("unknown replay kind {kind}")),
